@@ -403,6 +403,110 @@ class LoopMixin:
                     out.extend(self.callee_acquires(m[0], m[1], seen))
         return sorted(set(out))
 
+    def nested_contract(self, node):
+        """contract of a nested function (target Class.method.inner), looked up by the AST node being called"""
+        if self.contract is None or not isinstance(node, ast.FunctionDef):
+            return None
+        for cc in self.reg.contracts.values():
+            rel, qual = cc.target.split("::")
+            if qual.count(".") == 2 and qual.endswith("." + node.name) and cc.options.get("closure") is not None:
+                try:
+                    fnode, _ci = self.repo.function_source(rel, qual)
+                except KeyError:
+                    continue
+                if fnode is node or (fnode.lineno == node.lineno and fnode.name == node.name):
+                    return cc
+        return None
+
+    def call_closure_by_contract(self, cc, fnode, args, kwargs, cframe):
+        """call of a closure under contract: requires checked, declared closure variables / fields havocked, ensures assumed.
+        The free variables of the closure are read from the defining frame (when the enclosing function is being executed) or are the
+        declared closure inputs (when the closure itself is the function under verification and calls itself)."""
+        run = self.run
+        V = self.verifier
+        rel, qual = cc.target.split("::")
+        _fn, ci = self.repo.function_source(rel, qual)
+        dframe = E.Frame(rel, ci)
+        locs = self.bind_args(fnode, list(args), kwargs, None, dframe)
+        env = {}
+        root = getattr(self, "root_frame", None)
+        for name in cc.options.get("closure", {}):
+            f = cframe
+            val = None
+            while f is not None and val is None:
+                val = f.locals.get(name)
+                f = f.parent
+            if val is None and root is not None:
+                val = root.locals.get(name)
+            if val is None:
+                raise E.Unsupported(f"closure variable {name} of {qual} is not bound at the call")
+            env[name] = val
+        for g_, t_ in cc.ghost_params.items():
+            env[g_] = run.ghost[g_] if g_ in run.ghost else self.fresh(parse_type(t_), run.fresh_name(f"{g_}@{qual}"))
+        env.update(locs)
+        sframe = E.Frame("<spec>", ci, dict(env), None, "callee-spec")
+        for i, ex in enumerate(cc.requires):
+            self.ctx.oblige(self, "call-pre", f"{qual}#{i}", V.eval_bool(self, ex, sframe), "", False, text=ex)
+        saved_old, saved_locals = run.old_heap, getattr(self, "old_locals", {})
+        run.old_heap = run.snapshot()
+        self.old_locals = dict(env)
+        try:
+            tag = run.fresh_name(f"call:{qual}")
+            for p in (cc.modifies or []):
+                if p.isidentifier():
+                    v = env.get(p)
+                    if isinstance(v, VRef) and v.kind in ("list", "dict", "set"):
+                        ty = parse_type(cc.options["closure"][p])
+                        nv = self.fresh(ty, f"{p}@{tag}")
+                        run.heap[v.oid] = run.rec(nv.oid)      # havoc in place: same reference, arbitrary contents
+                        h = self.hooks.get("container_write")
+                        if h:
+                            h(v)
+                    else:
+                        raise E.Unsupported(f"callee {qual}: cannot havoc closure variable {p}")
+                    continue
+                pn = ast.parse(p, mode="eval").body
+                base = self.eval(pn.value, sframe)
+                if isinstance(base, VRef) and base.kind == "obj":
+                    rec = run.rec(base.oid)
+                    ty = self.field_type(rec.cls, pn.attr)
+                    if ty is None:
+                        raise E.Unsupported(f"callee {qual}: no type for modified {p}")
+                    rec.fields[pn.attr] = self.fresh(ty, f"{p}@{tag}")
+            outcomes = [("returns", None)] + [(f"raises {r}", None) for r in (cc.raises or [])]
+            k = run.choose(outcomes, f"{qual}()") if len(outcomes) > 1 else 0
+            if k > 0:
+                exc = VExc(cc.raises[k - 1])
+                for lbl, ex in list(cc.xensures.items()) + list(cc.always.items()):
+                    run.assume(V.eval_bool(self, ex, sframe, {"exc": VStr(exc.cls), "result": NONE}))
+                raise E.PyExc(exc, f"callee {qual}")
+            rt = parse_type(cc.returns) if cc.returns else self.ann_type(fnode.returns, rel)
+            result = self.fresh(rt, f"ret@{tag}")
+            run.contract_calls.append({"name": qual, "outcome": "return", "value": result, "args": list(args)})
+            extra = {"result": result, "exc": NONE}
+            for lbl, ex in list(cc.ensures.items()) + list(cc.always.items()):
+                try:
+                    self.assume_clause(V.parse_clause(ex), sframe, extra)
+                except E.PyExc:
+                    pass
+            for inst in cc.ghost_instances:
+                # the callee's universally quantified ghosts, instantiated once more with expressions over its parameters / closure variables
+                f_i = E.Frame("<spec>", ci, dict(sframe.locals), None, "callee-spec")
+                self.pure += 1
+                try:
+                    vals = {g_: self.eval(V.parse_clause(ex_), sframe) for g_, ex_ in inst.items()}
+                finally:
+                    self.pure -= 1
+                f_i.locals.update(vals)
+                for lbl, ex in list(cc.ensures.items()) + list(cc.always.items()):
+                    try:
+                        self.assume_clause(V.parse_clause(ex), f_i, dict(extra))
+                    except E.PyExc:
+                        pass
+            return extra["result"]
+        finally:
+            run.old_heap, self.old_locals = saved_old, saved_locals
+
     def call_by_contract(self, cc, recv, args, kwargs):
         run = self.run
         V = self.verifier
